@@ -5,9 +5,9 @@ Import ListNotations.
 From TV Require Import C42.Model C42.Spec C42.Proofs2 C42.Proofs3.
 Local Open Scope Z_scope.
 
-Lemma step_R w e sid c : G w -> fresh w e -> R w sid c -> R (step w e) sid (cstep sid c e).
+Lemma step_R w e sid c : G w -> fresh w e -> R w sid c -> cwf c -> R (step w e) sid (cstep sid c e).
 Proof.
-  intros Gw F Rw. pose proof Rw as [[Hs Hk Hw Hc Hi] Hq].
+  intros Gw F Rw Wf. pose proof Rw as [[Hs Hk Hw Hc Hi] Hq].
   destruct e as [p|p st| |s l|s l re|]; simpl.
   - (* another object is created *)
     simpl in F.
@@ -19,17 +19,17 @@ Proof.
   - destruct (p =? s_pid (c_sub c)) eqn:E.
     + apply Z.eqb_eq in E. subst p. rewrite Hk.
       destruct (c_ph c) eqn:P; simpl; try exact Rw.
-      split; [constructor|]; simpl; try assumption; try apply a_find_set_same; rewrite ?P in *; assumption.
+      split; [constructor|]; simpl; try assumption; try apply a_find_set_same. unfold q_of in *. simpl. rewrite P in Hq. exact Hq.
     + apply Z.eqb_neq in E.
       destruct (a_find p (w_kern w)) as [[|st'|st']|]; try exact Rw.
       split; [constructor|]; simpl; try assumption. rewrite a_find_set_other by exact E. exact Hk.
   - apply sigchld_R; assumption.
   - destruct (Nat.eqb s sid) eqn:E.
-    + apply Nat.eqb_eq in E. subst s. apply reg_self; [apply set_cb_keeps|exact Rw].
-    + apply Nat.eqb_neq in E. apply reg_other; [apply set_cb_keeps|exact Gw|exact Rw|exact E].
+    + apply Nat.eqb_eq in E. subst s. apply reg_self; [apply prep_plain_good|exact Rw|exact Wf].
+    + apply Nat.eqb_neq in E. apply reg_other; [apply prep_plain_good|exact Gw|exact Rw|exact E].
   - destruct (Nat.eqb s sid) eqn:E.
-    + apply Nat.eqb_eq in E. subst s. apply reg_self; [apply add_fut_keeps|exact Rw].
-    + apply Nat.eqb_neq in E. apply reg_other; [apply add_fut_keeps|exact Gw|exact Rw|exact E].
+    + apply Nat.eqb_eq in E. subst s. apply reg_self; [apply prep_fut_good|exact Rw|exact Wf].
+    + apply Nat.eqb_neq in E. apply reg_other; [apply prep_fut_good|exact Gw|exact Rw|exact E].
   - apply run_loop_R; assumption.
 Qed.
 
@@ -44,7 +44,7 @@ Proof.
     exfalso. apply F. rewrite <- H2. apply in_map. exact (nth_error_In _ _ H1).
   - exact (calls_none _ _ (g_log w Gw) _ (Nat.le_refl _)).
   - discriminate.
-  - exact (qstat_none _ _ (g_queue w Gw) _ (Nat.le_refl _)).
+  - exact (qfilter_none _ _ (g_queue w Gw) _ (Nat.le_refl _)).
 Qed.
 
 (* ---------- trace lemmas ---------- *)
@@ -111,27 +111,16 @@ Proof.
       * destruct (a_find pid (w_kern (run es))) as [[]|]; reflexivity.
       * destruct (w_init (run es)); [unfold cleanup; rewrite fold_try_subs|]; reflexivity.
       * unfold register. destruct (nth_error (w_subs (run es)) sid) as [s|] eqn:Hs; [|reflexivity].
-        rewrite try_subs. simpl. apply (map_upd_same s_pid _ _ s); [exact Hs|reflexivity].
+        destruct (s_rc s); [simpl|rewrite try_subs; simpl]; apply (map_upd_same s_pid _ _ s); try exact Hs; reflexivity.
       * unfold register. destruct (nth_error (w_subs (run es)) sid) as [s|] eqn:Hs; [|reflexivity].
-        rewrite try_subs. simpl. apply (map_upd_same s_pid _ _ s); [exact Hs|reflexivity].
-      * assert (H : forall q w1, G w1 -> (forall s st, In (s, st) q -> (s < length (w_subs w1))%nat) ->
-                   map s_pid (w_subs (fold_left set_rc q w1)) = map s_pid (w_subs w1)).
-        { induction q as [|[s st] q IHq]; intros w1 G1 V; cbn [fold_left]; [reflexivity|].
-          assert (L : (s < length (w_subs w1))%nat) by (apply (V s st); left; reflexivity).
-          assert (V' : forall s' st', In (s', st') q -> (s' < length (w_subs (set_rc w1 (s, st))))%nat).
-          { intros s' st' H'. rewrite (set_rc_len w1 (s, st)). apply (V s' st'). right; exact H'. }
-          rewrite (IHq (set_rc w1 (s, st)) (set_rc_G w1 s st G1 L) V').
-          unfold set_rc. destruct (nth_error (w_subs w1) s) as [sb|] eqn:Hs; [|reflexivity].
-          destruct (decode st) as [rc|]; [|reflexivity].
-          destruct (s_cb sb) as [c|]; [|simpl; apply (map_upd_same s_pid _ _ sb); [exact Hs|reflexivity]].
-          pose proof (invoke_pid s (mkSub (s_pid sb) None (Some rc) (s_futs sb)) c rc) as P.
-          destruct (invoke s _ c rc) as [s3 evs]. simpl in *.
-          apply (map_upd_same s_pid _ _ sb); [exact Hs|exact P]. }
-        unfold run_loop. rewrite H; [reflexivity| |exact (g_queue _ Gw)].
-        destruct Gw; constructor; simpl; auto. intros s st [].
+        destruct (s_rc s); [simpl|rewrite try_subs; simpl]; apply (map_upd_same s_pid _ _ s); try exact Hs; reflexivity.
+      * unfold run_loop.
+        set (w1 := mkW (w_kern (run es)) (w_subs (run es)) (w_waiting (run es)) [] (w_init (run es)) (w_log (run es))).
+        assert (G1 : G w1) by (destruct Gw; constructor; simpl; auto; intros x []).
+        destruct (fold_items_G (w_queue (run es)) w1 G1 (g_queue _ Gw)) as [_ [_ C]]. exact C.
     + intros sid. specialize (Tw sid). unfold track in *. rewrite after_spawn_snoc.
       destruct (after_spawn sid es) as [[p r]|] eqn:A.
-      * rewrite fold_left_app. simpl. apply step_R; assumption.
+      * rewrite fold_left_app. simpl. apply step_R; try assumption. apply fold_cwf, cinit_cwf.
       * assert (CL : count_spawns es = length (w_subs (run es))).
         { rewrite count_spawns_pids, <- Pw, map_length. reflexivity. }
         destruct e as [p|p st| |s l|s l re|];
